@@ -257,6 +257,7 @@ def main() -> int:
         if k["id"] not in known_hits and not args.replay:
             print("NOTE known finding %s not observed in this run" % k["id"])
     if new_violations:
+        print("  violating cases: %d (first %d written as replay files)" % (len(new_violations), len(replay_paths)))
         for v, path in zip(new_violations, replay_paths):
             print("  violated monitor=%s kind=%s: %s" % (v["sig"].get("monitor"), v["sig"].get("kind"), v["detail"][:300].replace("\n", " ")))
             print("VIOLATION property=%s replay=%s" % (pid, path))
